@@ -262,7 +262,8 @@ def check(ctx):
             if arg is not None:
                 arg = expand_aliases(create, arg, n)
             size_ok = isinstance(arg, ast.Attribute) and arg.attr == "digest_size"
-            guard_ok = any((not tr) and isinstance(t.ast, ast.Name) and "salt" in t.ast.id for t, tr in dominating_guards(an, create, n))
+            from engine.flow import guard_atoms
+            guard_ok = any((not tr) and isinstance(e_, ast.Name) and "salt" in e_.id for e_, tr, _t in guard_atoms(an, create, n))
             tgt_ok = any(isinstance(t, ast.Name) and "salt" in t.id for t in n.ast.targets)
             fresh = size_ok and guard_ok and tgt_ok
             ctx.ob("salt.fresh", create, n.ast, fresh,
@@ -305,6 +306,33 @@ def check(ctx):
             for k, val in zip(v.keys, v.values):
                 if isinstance(k, ast.Constant):
                     out.append((k.value, val, {}))
+        elif isinstance(v, ast.DictComp) and len(v.generators) == 1 and not v.generators[0].ifs and isinstance(v.generators[0].iter, ast.Call) \
+                and isinstance(v.generators[0].iter.func, ast.Name) and v.generators[0].iter.func.id == "zip" and len(v.generators[0].iter.args) == 2 \
+                and isinstance(v.generators[0].target, ast.Tuple) and len(v.generators[0].target.elts) == 2 \
+                and all(isinstance(t, ast.Name) for t in v.generators[0].target.elts) and isinstance(v.key, ast.Name):
+            # {key: enc(part) for key, part in zip(KEYS, parts)}: rows from two parallel displays / constants
+            def rows_of(e):
+                if isinstance(e, (ast.Tuple, ast.List)):
+                    return list(e.elts)
+                if isinstance(e, ast.Name):
+                    srcs = value_sources(tb, e, node)
+                    if len(srcs) == 1 and srcs[0][0] == "expr" and isinstance(srcs[0][1], (ast.Tuple, ast.List)):
+                        return list(srcs[0][1].elts)
+                try:
+                    cv = model.const_eval(tb.module, e, tb.cls)
+                    if isinstance(cv, (tuple, list)):
+                        return [ast.Constant(value=c) for c in cv]
+                except (ValueError, KeyError):
+                    pass
+                return None
+            a_rows, b_rows = rows_of(v.generators[0].iter.args[0]), rows_of(v.generators[0].iter.args[1])
+            if a_rows is not None and b_rows is not None and len(a_rows) == len(b_rows):
+                names = [t.id for t in v.generators[0].target.elts]
+                for ka, vb in zip(a_rows, b_rows):
+                    sub = dict(zip(names, (ka, vb)))
+                    kx = sub.get(v.key.id)
+                    if isinstance(kx, ast.Constant):
+                        out.append((kx.value, v.value, sub))
         elif isinstance(v, ast.DictComp) and len(v.generators) == 1 and not v.generators[0].ifs and isinstance(v.generators[0].iter, (ast.Tuple, ast.List)) \
                 and isinstance(v.generators[0].target, ast.Tuple) and all(isinstance(t, ast.Name) for t in v.generators[0].target.elts) \
                 and isinstance(v.key, ast.Name):
@@ -339,8 +367,22 @@ def check(ctx):
                        "key %r is not the base64 of the matching component (it is built from %s)" % (key, sorted(map(str, comps))), node=r)
     rkeys = {}
     mismatch = []
+    def key_const(sl):
+        """the string a subscript key stands for: a literal, or a local that holds one literal where it is used"""
+        if isinstance(sl, ast.Constant) and isinstance(sl.value, str):
+            return sl.value
+        if isinstance(sl, ast.Name):
+            srcs = value_sources(tp, sl, None)
+            vals = {pl.value if k == "expr" and isinstance(pl, ast.Constant) and isinstance(pl.value, str) else None for k, pl in srcs}
+            if len(vals) == 1 and None not in vals:
+                return vals.pop()
+        return None
     for x in ast.walk(tp.node):
-        if isinstance(x, ast.Subscript) and isinstance(x.slice, ast.Constant) and isinstance(x.slice.value, str):
+        if isinstance(x, ast.Subscript) and key_const(x.slice) is not None and isinstance(x.ctx, ast.Load):
+            x = ast.copy_location(ast.Subscript(value=x.value, slice=ast.Constant(value=key_const(x.slice)), ctx=x.ctx), x) if not isinstance(x.slice, ast.Constant) else x
+            if not hasattr(x, "_parent"):
+                orig = [y for y in ast.walk(tp.node) if isinstance(y, ast.Subscript) and y.value is x.value]
+                x._parent = getattr(orig[0], "_parent", None) if orig else None
             par = getattr(x, "_parent", None)
             dec = ast.unparse(par.func).split(".")[-1] if isinstance(par, ast.Call) else None
             want = {CODEC_INVERSE[e] for e in enc_names.get(x.slice.value, set())}
